@@ -217,6 +217,24 @@ void signalSafeViolation(const char* key) {
 	if (R.fd >= 0) writeAll(R.fd, line, p);
 }
 
+// ---- watchdog around runs of generated / interpreted programs: a run that does not return within the (generous) limit
+// is reported as a violation for the case in progress (non-termination is a property violation for C04/C07; for the
+// other program-level checks it is at least a disagreement with the interpreter, whose run is bounded by construction)
+static const char* volatile g_watchdogKey = nullptr;
+static void onWatchdogAlarm(int) {
+	const char* k = g_watchdogKey;
+	if (!k) return;
+	signalSafeViolation(k);
+	_exit(3);
+}
+void armRunWatchdog(const char* key, unsigned seconds) {
+	static bool installed = false;
+	if (!installed) { struct sigaction sa; memset(&sa, 0, sizeof sa); sa.sa_handler = onWatchdogAlarm; sigemptyset(&sa.sa_mask); sigaction(SIGALRM, &sa, nullptr); installed = true; }
+	g_watchdogKey = key;
+	alarm(seconds);
+}
+void disarmRunWatchdog() { alarm(0); g_watchdogKey = nullptr; }
+
 #if defined(__SANITIZE_ADDRESS__)
 // ASan calls this before printing a report: attribute the report to the case in progress
 extern "C" void __asan_on_error() {
